@@ -464,7 +464,7 @@ partial def exprOfJson (j : Json) : Except String Expr := do
       pure (.compare i (← sub "left") (ops.toList.zip cs))
   | "ifexp" => do pure (.ifexp i (← sub "c") (← sub "t") (← sub "e"))
   | "display" => do pure (.display i (← subs "es"))
-  | "comp" => do pure (.comp i ((← j.getObjValAs? (Array String) "targets").toList) (← subs "inner"))
+  | "comp" => do pure (.comp i ((← j.getObjValAs? (Array String) "targets").toList) (← sub "first") (← subs "inner"))
   | "starred" => do pure (.starred i (← sub "e"))
   | "coll" => do
       let kind ← j.getObjValAs? String "kind"
